@@ -708,6 +708,7 @@ func preamble() []string {
 		"(declare-fun strsub (Str Int Int) Str)",
 		"(declare-fun strfromint (Int) Str)",
 		"(declare-fun strofbytes (Int) Str)",
+		"(declare-fun pathjoin (Str Str) Str)",
 		"(declare-fun fieldaddr (Int Int) Int)", // address of an interior field (component id, object ref): positive, so never a package-level variable
 		"(assert (= (strlen str!empty) 0))",
 		"(assert (= (strid str!empty) 0))",
